@@ -422,8 +422,9 @@ def closed_extent(P, rep, rule="G2.extent"):
             good = False
             if poly is not None:
                 a = poly["c"][1:]
+                sub2 = norm.Subst(bind={F.params[1]: "position_in_natural_coordinates"})      # the natural-coordinate argument, by position
                 t0 = norm.render(P, a[0], nocast=True)
-                t1 = norm.render(P, a[1], nocast=True).replace(" ", "")
+                t1 = norm.render(P, a[1], nocast=True, subst=sub2).replace(" ", "")
                 good = t0 in ("coordinates", "this->coordinates") and "position_in_natural_coordinates.get_surface_coordinates()" in t1 and "natural_coordinate_system()" in t1
             if good:
                 rep.ok(rule, "%s: polygon_contains_point(coordinates, Point<2>(natural surface coordinates, natural system))" % fname, F.nloc(poly), F.qn)
@@ -442,7 +443,8 @@ def ridge_alias_twins(P, rep, rule="ALIAS.twins"):
                    "values of the nearer of the two are kept together (distance, spreading velocity, subducting velocity of the same point)")
     F = P.func("WorldBuilder::Utilities::calculate_ridge_distance_and_spreading")
     miss = astq.missing_anchors(P, F, ["c1", "c2", "c", "Pb1", "Pb2", "check_point", "other_check_point", "compare_distance", "compare_distance1", "compare_distance2",
-                                       "spreading_velocity_at_ridge_pt", "subducting_velocity_at_trench_pt"])
+                                       "spreading_velocity_at_ridge_pt", "subducting_velocity_at_trench_pt", "spreading_velocity_at_ridge_pt2", "subducting_velocity_at_trench_pt2",
+                                       "result", "distance_ridge", "seconds_in_year", "spreading_velocity_at_ridge", "subducting_velocity_at_trench", "ridge_migration_time"])
     if miss:
         rep.unknown(rule, "calculate_ridge_distance_and_spreading: the locals %s this rule is written over no longer exist (renamed?)" % miss)
         return
